@@ -109,6 +109,7 @@ type ndRun struct {
 	delivered []map[string]bool
 	values    map[basics.Round][]proposalValue
 	valTok    map[string]proposalValue
+	payloads  map[string]unauthenticatedProposal       // payloads seen on the wire, by value token
 	wireVotes map[string]map[int][]unauthenticatedVote // "round/period/step" -> sender -> votes seen (distinct values)
 	digests   map[basics.Round]map[string]bool         // honest EnsureBlock digests per round
 	conflict  bool
@@ -468,6 +469,10 @@ func (r *ndRun) onWire(src int, tag protocol.Tag, data []byte, mask []bool) {
 		if err := protocol.Decode(data, &tp); err == nil {
 			pv := tp.unauthenticatedProposal.value()
 			r.learnValueLocked(tp.unauthenticatedProposal.Round(), pv)
+			if r.payloads == nil {
+				r.payloads = map[string]unauthenticatedProposal{}
+			}
+			r.payloads[ndTok(pv)] = tp.unauthenticatedProposal
 			r.logLocked("PROPOUT src=%d round=%d val=%s pvperiod=%d h=%s", src, tp.unauthenticatedProposal.Round(), ndTok(pv), tp.PriorVote.R.Period, hs)
 		}
 	case protocol.VoteBundleTag:
